@@ -563,6 +563,27 @@ pub fn run(ctx: &Ctx) -> i32 {
             }
         }
     }
+    // runs that end in a diagnostic while STANDARD ERROR cannot be written (a full device, a pipe whose reader
+    // left): the report is lost, but the process still ends with its failure status - not by a signal
+    sc.file("bad.json", b"{\"a\": [1, 2,, }\n");
+    sc.file("nullkey.yaml", b"? ~\n: v\n");
+    for kind in [procmon::StderrKind::DevFull, procmon::StderrKind::ClosedPipe] {
+        for argv in [vec!["-t", "yaml", "bad.json"], vec!["-t", "json", "missing.json"], vec!["-t", "json", "nullkey.yaml"], vec!["-t", "toml", "nullkey.yaml"], vec!["-t", "json"], vec!["--bogus"], vec!["-t"]] {
+            for (bin, bname) in [(procmon::release_bin(), "release"), (procmon::debug_bin(), "debug")] {
+                let argv: Vec<String> = argv.iter().map(|s| s.to_string()).collect();
+                let out = procmon::run_stderr(Run { bin: &bin, argv: argv.clone(), cwd: sc.path(), stdin: StdinKind::Bytes(b"\x01 no format {{{\n".to_vec()), stdout: StdoutKind::Pipe, wall_secs: 60, cpu_secs: 30 }, kind);
+                acc.evals += 1;
+                acc.count("binary_runs_with_unwritable_stderr");
+                match out.status {
+                    Status::Exit(1) | Status::Exit(2) => acc.count("binary_unwritable_stderr_exit_1_or_2"),
+                    // (with a closed pipe on stderr a SIGPIPE would be in keeping with the property's one exception)
+                    Status::Signal(s) if s == libc::SIGPIPE && kind == procmon::StderrKind::ClosedPipe => acc.count("binary_unwritable_stderr_sigpipe"),
+                    Status::Timeout | Status::SpawnError(_) => acc.inconclusive += 1,
+                    ref other => acc.violation(Violation { sig: format!("{bname} binary, diagnostic with stderr {kind:?}: {}", other.show()), case: json!({"binary": bname, "argv": argv, "stderr": format!("{kind:?}")}), observed: other.show(), expected: "exit 1 or 2 (the only signal xt may die from is SIGPIPE)".into() }),
+                }
+            }
+        }
+    }
     // a translation whose consumer has gone, started with SIGPIPE inherited as ignored or blocked in the signal
     // mask (what shells, language runtimes and container entry points hand down): xt still ends by SIGPIPE or
     // with an ordinary failure status - never by another signal
@@ -602,8 +623,8 @@ pub fn run(ctx: &Ctx) -> i32 {
     if thorough {
         fuzz_stage(ctx, "totality", 600, "C04", &mut acc);
     }
-    let rule = format!("{} cases in crash-isolated worker processes: 3/4 mixed corpus inputs (valid streams, mutants, splices, seeds, random bytes/tokens), 1/4 adversarial shapes (nesting to {} for JSON/MessagePack/TOML and {} for YAML, unclosed openers, declared lengths up to 2^32-1 on every str/bin/ext/array/map marker, alias bombs, lone anchors/aliases/tags, empty input, valid documents with a node the target must refuse, long scalars and wide collections, numeric edge literals, UTF-16/32 YAML with multi-byte characters on every alignment around 8/16/24/32 KiB of re-encoded text, random bytes); every case x 5 source selections x 4 targets x [slice, reader under a random schedule] (+ for translatable inputs two runs with a writer that fails at a random output offset) on the worker's 8 MiB main-thread stack with an 8 GiB address-space limit; plus a sample of adversarial inputs through the debug and release binaries, and 12 command lines that end without translating (help, version, usage errors, unreadable operands) x 5 program names (argv[0] not valid UTF-8, empty, a path) x stdout pipe / unread pipe / full device through both binaries, translations whose consumer has gone under SIGPIPE inherited as ignored or blocked, and failures whose diagnostic is 5-20 KiB of multi-byte text; distinct non-trivial = distinct non-empty inputs", n, if thorough { 100000 } else { 5000 }, if thorough { 30000 } else { 1200 });
-    let mut f = Finish { ctx, level: "exploration", rule, assumptions: vec!["'never loops forever' is decided up to a budget: quick 60 s without progress in a batch, then 300 s alone; thorough 120 s / 900 s".into(), "a dead worker is attributed to the case it had announced".into()], extra: serde_json::Map::new(), exhaustive: false, min_distinct: 1000, must_reach: vec![("cases_completed".into(), (n as u64) * 9 / 10), ("binary_sample_exit_0_or_1".into(), 50), ("binary_non_translating_exit_0_1_2".into(), 200), ("binary_consumer_gone_under_a_signal_environment".into(), 24), ("binary_long_diagnostic_exit_1".into(), 30), ("class_huge_declared_length".into(), 10), ("class_alias_bomb".into(), 10), ("class_reencoded_boundary".into(), 10)] };
+    let rule = format!("{} cases in crash-isolated worker processes: 3/4 mixed corpus inputs (valid streams, mutants, splices, seeds, random bytes/tokens), 1/4 adversarial shapes (nesting to {} for JSON/MessagePack/TOML and {} for YAML, unclosed openers, declared lengths up to 2^32-1 on every str/bin/ext/array/map marker, alias bombs, lone anchors/aliases/tags, empty input, valid documents with a node the target must refuse, long scalars and wide collections, numeric edge literals, UTF-16/32 YAML with multi-byte characters on every alignment around 8/16/24/32 KiB of re-encoded text, random bytes); every case x 5 source selections x 4 targets x [slice, reader under a random schedule] (+ for translatable inputs two runs with a writer that fails at a random output offset) on the worker's 8 MiB main-thread stack with an 8 GiB address-space limit; plus a sample of adversarial inputs through the debug and release binaries, and 12 command lines that end without translating (help, version, usage errors, unreadable operands) x 5 program names (argv[0] not valid UTF-8, empty, a path) x stdout pipe / unread pipe / full device through both binaries, translations whose consumer has gone under SIGPIPE inherited as ignored or blocked, failures whose diagnostic is 5-20 KiB of multi-byte text, and failures whose diagnostic cannot be written (stderr on /dev/full or a pipe whose reader left); distinct non-trivial = distinct non-empty inputs", n, if thorough { 100000 } else { 5000 }, if thorough { 30000 } else { 1200 });
+    let mut f = Finish { ctx, level: "exploration", rule, assumptions: vec!["'never loops forever' is decided up to a budget: quick 60 s without progress in a batch, then 300 s alone; thorough 120 s / 900 s".into(), "a dead worker is attributed to the case it had announced".into()], extra: serde_json::Map::new(), exhaustive: false, min_distinct: 1000, must_reach: vec![("cases_completed".into(), (n as u64) * 9 / 10), ("binary_sample_exit_0_or_1".into(), 50), ("binary_non_translating_exit_0_1_2".into(), 200), ("binary_consumer_gone_under_a_signal_environment".into(), 24), ("binary_long_diagnostic_exit_1".into(), 30), ("binary_unwritable_stderr_exit_1_or_2".into(), 20), ("class_huge_declared_length".into(), 10), ("class_alias_bomb".into(), 10), ("class_reencoded_boundary".into(), 10)] };
     if !acc.violations.is_empty() {
         f.must_reach.clear();
     }
